@@ -119,7 +119,8 @@ MUTANTS = [
     ("T3", "C10", "labella/timeline.py",
      "        self.nodes, self.renderer = self.compute()\n        initWidth, initHeight = (",
      "        if self.nodes is None:\n            self.nodes, self.renderer = self.compute()\n        initWidth, initHeight = (",
-     "SVG export reuses the nodes of its first export (harmless alone: must NOT be flagged unless output changes)"),
+     "SVG export reuses the nodes of its first export: unobservable while the options stay as they are, but a later "
+     "change of tl.options (TWEAK) is then ignored, so the export depends on history (same verdict as seeded C10-g2)"),
     ("S1", "C12", "labella/scale.py",
      "            list(self._domain),\n            list(self._range),\n",
      "            self._domain,\n            self._range,\n",
@@ -192,7 +193,7 @@ BENIGN = [
 MUTANTS = MUTANTS + BENIGN
 
 # mutants that must NOT be flagged (the property still holds): soundness side
-EXPECT_CLEAN = {"T3"} | {m[0] for m in BENIGN}
+EXPECT_CLEAN = {m[0] for m in BENIGN}
 
 
 def _make_copy():
